@@ -195,4 +195,30 @@ def spec_map(path, xs, body_fn, name="specmap"):
 
 
 def in_strs(t, strings):
-    return z3.Or(*[t == S(s) for s in strings]) if strings else z3.BoolVal(False)
+    """t (a Val) is one of the given strings - same encoding as the interpreter's `x in <tuple/list/dict of str>`"""
+    strings = list(strings)
+    if not strings:
+        return z3.BoolVal(False)
+    if len(strings) > 8:
+        return z3.And(V.is_VStr(t), z3.InRe(V.vs(t), z3.Union(*[z3.Re(str(x)) for x in strings])))
+    return z3.Or(*[t == S(x) for x in strings])
+
+
+def append_map_inv(cur, rest, xs, smap, params=(), init=None, keep=None):
+    """Loop invariant (suffix form) of `for x in xs: acc.append(f(x))`:  cur ++ map(rest) == init ++ map(xs).
+    When `rest` is x::rest' the associativity instance the step needs is recorded:
+    (cur ++ [e]) ++ m == cur ++ (e :: m)   with e = spec body of x, m = map(rest')."""
+    init = V.VNil if init is None else init
+    m = smap(rest, *params)
+    rs = z3.simplify(rest)
+    if z3.is_app(rs) and rs.decl().name() == "VNil":
+        return cur == V.vconcat(init, smap(xs, *params))
+    if z3.is_app(rs) and rs.decl().name() == "VCons":
+        x, r1 = rs.arg(0), rs.arg(1)
+        smap.define()
+        e = z3.substitute(smap.body, (smap.var, x), *list(zip(smap.params, params)))
+        tail = smap(r1, *params)
+        V.LEMMAS.append(V.vl_concat(V.vl_concat(cur, V.VCons(e, V.VNil)), tail) == V.vl_concat(cur, V.VCons(e, tail)))
+        if smap.keep is not None:
+            V.LEMMAS.append(V.vl_concat(cur, tail) == V.vl_concat(cur, tail))
+    return V.vl_concat(cur, m) == V.vl_concat(init, smap(xs, *params))
